@@ -112,6 +112,10 @@ type Interp struct {
 	// AssumeNoTruncation: narrowing integer conversions keep their linear form (documented domain
 	// restriction "lengths fit their fields").
 	AssumeNoTruncation bool
+	// StrictWrap: unsigned arithmetic that cannot be shown to stay inside its type is opaque even under
+	// AssumeNoTruncation (set while a parser is interpreted on a stream whose field widths are exact: there the
+	// assumption "values fit their fields" says nothing about the parser's own arithmetic).
+	StrictWrap bool
 	// SuffixLo: documented input domains, by symbol-name suffix (e.g. ".optPacketSize" >= 0).
 	SuffixLo map[string]int64
 	// NonZeroLo: once a symbol with this suffix is known to be non-zero it is at least this large
